@@ -26,8 +26,9 @@ def gen_paths(rng, R, arches):
         for a in arches:
             if rng.random() < 0.8:
                 tab[a] = "%s/%s/%s" % (rstr(rng, LOWER, 3, 6), a, cat) if rng.random() < 0.9 else ""
-        if rng.random() < 0.15:
-            tab["foreign"] = "nowhere"
+        if rng.random() < 0.25:
+            # an architecture the variant does not have (another real one, the source pseudo-architectures, or junk): not stored
+            tab[rng.choice(["foreign", "src", "nosrc", "noarch", "s390x"])] = "nowhere"
         if tab:
             paths[cat] = tab
     return paths
